@@ -165,13 +165,17 @@ class BIFReader(object):
         return probability_expr, cpd_expr
 
     def variable_block(self):
-        start = re.finditer("variable", self.network)
+        # The keyword followed by a name and an opening brace; a bare "variable" can also
+        # be (part of) a variable or state name.
+        start = re.finditer(r"\bvariable\s+[^\s{]+\s*\{", self.network)
         for index in start:
             end = self.network.find("}\n", index.start())
             yield self.network[index.start() : end]
 
     def probability_block(self):
-        start = re.finditer("probability", self.network)
+        # The keyword followed by an opening parenthesis; a bare "probability" can also
+        # be (part of) a variable name.
+        start = re.finditer(r"\bprobability\s*\(", self.network)
         for index in start:
             end = self.network.find("}\n", index.start())
             yield self.network[index.start() : end]
